@@ -1,6 +1,6 @@
 /*UNIT
 {"props": ["C14"], "src": ["lib/log_format.c", "lib/strlcpy.c", "lib/strlcat.c"], "mode": "plain", "kind": "bounded",
- "bound": "one format template per variant (<= 3 directives), symbolic argument values, concrete strings \"a%\" and \"x%d\" (variant strempty: empty and \"xyz\"), record space 40 bytes and decode buffer 32 bytes (both sufficient), decoded text shorter than the buffer; every conversion prints at most 4 characters; loops unwound 30 times",
+ "bound": "one format template per variant (<= 3 directives), symbolic argument values, string arguments of 2 and 3 bytes (variant strempty: 0 and 3) with arbitrary characters, record space 40 bytes and decode buffer 32 bytes (both sufficient), decoded text shorter than the buffer; every conversion prints at most 4 characters; loops unwound 30 times",
  "unwind": 30,
  "functions": ["qb_vsnprintf_serialize", "qb_vsnprintf_deserialize", "my_strlcpy", "my_strlcat", "strlcpy", "strlcat"],
  "stubs": ["snprintf (decoder side: records one-directive format and argument; text not modelled: writes min(result,size-1) characters + terminator, any result 0..64; exact for the '*' width paste)",
@@ -12,6 +12,13 @@
   {"vname": "longs",   "defines": ["-DV_FMT=\"%ld|%llu|%zd\"", "-DV_ARGS=l0,ll0,(size_t)ll1", "-DV_N=3", "-DV_F0=\"%ld\"", "-DV_K0=K_LONG", "-DV_V0=l0", "-DV_F1=\"%llu\"", "-DV_K1=K_LLONG", "-DV_V1=ll0", "-DV_F2=\"%zd\"", "-DV_K2=K_LLONG", "-DV_V2=ll1"]},
   {"vname": "charptr", "defines": ["-DV_FMT=\"%c=%p\"", "-DV_ARGS=(int)c0,p0", "-DV_N=2", "-DV_F0=\"%c\"", "-DV_K0=K_CHAR", "-DV_V0=c0", "-DV_F1=\"%p\"", "-DV_K1=K_PTR", "-DV_V1=(long long)(ptrdiff_t)p0"]},
   {"vname": "ptrint",  "defines": ["-DV_FMT=\"%p|%d\"", "-DV_ARGS=p0,i0", "-DV_N=2", "-DV_F0=\"%p\"", "-DV_K0=K_PTR", "-DV_V0=(long long)(ptrdiff_t)p0", "-DV_F1=\"%d\"", "-DV_K1=K_INT", "-DV_V1=i0"]},
+  {"vname": "pct_args","defines": ["-DV_FMT=\"%d%%|%d\"", "-DV_ARGS=i0,i1", "-DV_N=2", "-DV_F0=\"%d\"", "-DV_K0=K_INT", "-DV_V0=i0", "-DV_F1=\"%d\"", "-DV_K1=K_INT", "-DV_V1=i1"]},
+  {"vname": "pct_flag","defines": ["-DV_FMT=\"%d%% done\"", "-DV_ARGS=i0", "-DV_N=1", "-DV_F0=\"%d\"", "-DV_K0=K_INT", "-DV_V0=i0"]},
+  {"vname": "str2",    "defines": ["-DV_FMT=\"%s%s\"", "-DV_ARGS=s0,s1", "-DV_N=2", "-DV_F0=\"%s\"", "-DV_K0=K_STR", "-DV_S0=s0", "-DV_F1=\"%s\"", "-DV_K1=K_STR", "-DV_S1=s1"]},
+  {"vname": "strempty","defines": ["-DV_L0=0", "-DV_L1=3", "-DV_FMT=\"%s%s\"", "-DV_ARGS=s0,s1", "-DV_N=2", "-DV_F0=\"%s\"", "-DV_K0=K_STR", "-DV_S0=s0", "-DV_F1=\"%s\"", "-DV_K1=K_STR", "-DV_S1=s1"]},
+  {"vname": "precint", "defines": ["-DV_FMT=\"%.0d|%2s\"", "-DV_ARGS=i0,s1", "-DV_N=2", "-DV_F0=\"%.0d\"", "-DV_K0=K_INT", "-DV_V0=i0", "-DV_F1=\"%2s\"", "-DV_K1=K_STR", "-DV_S1=s1"]},
+  {"vname": "strint",  "defines": ["-DV_FMT=\"<%s> %d\"", "-DV_ARGS=s0,i0", "-DV_N=2", "-DV_F0=\"%s\"", "-DV_K0=K_STR", "-DV_S0=s0", "-DV_F1=\"%d\"", "-DV_K1=K_INT", "-DV_V1=i0"]},
+  {"vname": "precstr", "defines": ["-DV_FMT=\"%.1s|%s\"", "-DV_ARGS=s0,s1", "-DV_N=2", "-DV_F0=\"%.1s\"", "-DV_K0=K_STR", "-DV_S0=s0", "-DV_P0=1", "-DV_F1=\"%s\"", "-DV_K1=K_STR", "-DV_S1=s1"]},
   {"vname": "dbl",     "defines": ["-DV_FMT=\"%f %8.3e\"", "-DV_ARGS=d0,d1", "-DV_N=2", "-DV_F0=\"%f\"", "-DV_K0=K_DOUBLE", "-DV_D0=d0", "-DV_F1=\"%8.3e\"", "-DV_K1=K_DOUBLE", "-DV_D1=d1"]},
   {"vname": "star",    "defines": ["-DV_FMT=\"%*d|\"", "-DV_ARGS=7,i0", "-DV_N=1", "-DV_F0=\"%7d\"", "-DV_K0=K_INT", "-DV_V0=i0"]}]}
 */
@@ -27,10 +34,6 @@
 #define V_L0 2
 #define V_L1 3
 #endif
-#ifndef V_C0
-#define V_C0 "a%"
-#define V_C1 "x%d"
-#endif
 #include "ser.h"
 
 void harness(void)
@@ -43,10 +46,15 @@ void harness(void)
 	int i0 = nd_i0, i1 = nd_i1, i2 = nd_i2; long l0 = nd_l0; long long ll0 = nd_ll0, ll1 = nd_ll1;
 	unsigned char c0 = nd_c0; void *p0 = (void *)(uintptr_t)nd_p0;
 	char s0[4], s1[4];
-	ASSUME(nd_len0 == V_L0 && nd_len1 == V_L1);   /* string lengths are fixed per variant (symbolic lengths time out); contents are symbolic */
-	/* string arguments are concrete per variant (symbolic contents time out in the byte-loop helpers): */
-	{ static const char c0s[4] = V_C0, c1s[4] = V_C1; for (unsigned k = 0; k < 4; k++) { s0[k] = c0s[k]; s1[k] = c1s[k]; } }
-	s0[nd_len0] = 0; s1[nd_len1] = 0;
+	ASSUME(nd_len0 == V_L0 && nd_len1 == V_L1);
+	/* string arguments: fixed length per variant (V_L0, V_L1), arbitrary characters (incl. '%'); declared to the string
+	 * helpers so that strlen of the ARGUMENT is its declared length and all record offsets stay constants */
+	verif_str_reset();
+	for (unsigned k = 0; k < 3; k++) { VERIF_ND(uint8_t, nd_ch); ASSUME(nd_ch != 0 && nd_ch != QB_XC); s0[k] = (char)nd_ch; }
+	for (unsigned k = 0; k < 3; k++) { VERIF_ND(uint8_t, nd_ch); ASSUME(nd_ch != 0 && nd_ch != QB_XC); s1[k] = (char)nd_ch; }
+	s0[V_L0] = 0; s1[V_L1] = 0;
+	verif_str_declare(0, s0, V_L0);
+	verif_str_declare(1, s1, V_L1);
 	verif_pf_n = 0; verif_pf_total = 0;
 	char *rec = malloc(40);
 	char *text = malloc(32);
@@ -60,7 +68,7 @@ void harness(void)
 	size_t dl = qb_vsnprintf_deserialize(text, 32, rec);
 
 	COVER(verif_pf_n == V_N);
-	COVER(1);
+	COVER(V_L0 == 0 || s0[0] == '%'); COVER(s1[1] == '%');
 	POST(verif_pf_n == V_N, "every conversion of the format is printed exactly once");
 #if V_N >= 1
 	POST(verif_streq(verif_pf[0].fmt, V_F0), "the decoder prints each argument with the original directive text (flags, width, precision, length modifier)");
